@@ -342,7 +342,7 @@ func init() {
 		var jobs []interface{}
 		jobs = append(jobs, c05Job{nil})
 		for _, h := range c05Histories(maxLen) {
-			jobs = append(jobs, c05Job{h})
+			jobs = append(jobs, c05Job{edgeIDs(h)}) // the device has short id 0, the zero value of every id-typed variable
 		}
 		// fleets: the weekly record grows by 32 KiB per device, so rotations with 3 and 5 devices write
 		// records of 95 and 158 KiB (any chunked writing shows up as extra crash points)
@@ -350,6 +350,7 @@ func init() {
 		jobs = append(jobs, c05Job{append(append([]string{}, fleet...), "rep:1:kA:now:500", "rot")})
 		jobs = append(jobs, c05Job{append(append([]string{}, fleet...), "auth:4:kD:1000:G1", "auth:5:kE:1000:G1", "rep:3:kC:now:500", "rot", "rot", "restart")})
 		jobs = append(jobs, c05Job{append(append([]string{}, fleet...), "rot", "auth:2:kX:1000:G1", "rep:3:kC:now:500", "rot")})
+		jobs = append(jobs, c05Job{edgeIDs(append(append([]string{}, fleet...), "rep:3:kC:now:500", "rep:1:kA:now:500", "auth:3:kX:1000:G1", "auth:1:kX:1000:G1", "restart", "rot"))})
 		run.Coverage["histories"] = len(jobs)
 		run.Assumption("process-crash model: completed system calls persist, memory is lost; ioutil.WriteFile is performed as open-truncate, write, close so that 'present but empty' is a step boundary; torn writes inside one write call and SIGKILL at random instants are out of scope")
 		return runJobCheck(run, "c05", jobs, "every history of length <= N over {register, authorize, conflicting authorize, first report, second report (ban), rotate, restart} after a first start; after every mutating file-system step of the run the directory is copied; every distinct crash image is recovered by the real constructor and compared with the model of the durable prefix (completed operations in, the in-flight operation in or out, nothing partial); evaluations = crash images recovered; distinct = (history, operation in flight) classes")
